@@ -1021,6 +1021,9 @@ class TemplateCompiler:
 		# Sort the tags by priority
 		foundTALAtts.sort()
 		
+		# The commands of this element start here (macros and slots are ranges of whole elements)
+		self.currentElementStart = len (self.commandList)
+
 		# We handle the METAL before the TAL
 		allCommands = foundMETALAtts + foundTALAtts
 		firstTag = 1
@@ -1211,8 +1214,8 @@ class TemplateCompiler:
 			self.log.error (msg)
 			raise TemplateParseException (self.tagAsText (self.currentStartTag), msg)
 			
-		# The macro starts at the next command.
-		macro = SubTemplate (len (self.commandList), self.endTagSymbol)
+		# The macro starts at the first command of this element.
+		macro = SubTemplate (self.currentElementStart, self.endTagSymbol)
 		self.macroMap [argument] = macro
 		return None
 		
@@ -1259,8 +1262,8 @@ class TemplateCompiler:
 			self.log.error (msg)
 			raise TemplateParseException (self.tagAsText (self.currentStartTag), msg)
 		
-		# The slot starts at the next command.
-		slot = SubTemplate (len (self.commandList), self.endTagSymbol)
+		# The slot starts at the first command of this element.
+		slot = SubTemplate (self.currentElementStart, self.endTagSymbol)
 		slotMap [argument] = slot
 		
 		# Update the command
